@@ -209,6 +209,9 @@ def check(prop, tier, obligations, level="model_checking", seed=0, extra_assumpt
                encode_secs=0.0, replays=0, replays_reproduced=0, validated=0, validation_mismatch=0, terms=0, prune_checks=0)
     reach_seen, reach_all = {}, {}
     max_replays = 3
+    only = os.environ.get("VERIF_ONLY")  # development aid: run only the obligations whose name matches (never set by a registered command)
+    if only:
+        obligations = [ob for ob in obligations if re.search(only, ob["name"])]
     try:
         for ob in obligations:
             ob = dict(ob)
@@ -402,8 +405,9 @@ def check(prop, tier, obligations, level="model_checking", seed=0, extra_assumpt
         ),
         assumptions=sorted(stubs) + ["inexact: %s x%d" % kv for kv in sorted(inexact.items())] + list(extra_assumptions),
     )
-    os.makedirs(os.path.join(VERIF, "evidence"), exist_ok=True)
-    json.dump(ev, open(os.path.join(VERIF, "evidence", prop + ".json"), "w"), indent=1)
+    evdir = os.environ.get("VERIF_EVIDENCE_DIR") or os.path.join(VERIF, "evidence")  # development runs against a scratch tree write elsewhere
+    os.makedirs(evdir, exist_ok=True)
+    json.dump(ev, open(os.path.join(evdir, prop + ".json"), "w"), indent=1)
 
     for k, v in known_hits.items():
         print("KNOWN-FINDING: property=%s %s: %s (reproduced natively, %d cube(s); e.g. %s)" % (
